@@ -23,7 +23,8 @@ pub struct Setting {
 impl Setting {
     pub fn label(&self) -> String {
         match self.fv {
-            Some((t, m)) => format!("fv-T{}-M{}", t, m),
+            Some((t, m)) if self.levels == 8 && self.ws.iter().all(|w| *w == 1) && self.heights.iter().all(|h| *h == 25) => format!("fv-T{}-M{}", t, m),
+            Some((t, m)) => format!("L{}-H{:?}-W{:?}-fv-T{}-M{}", self.levels, self.heights, self.ws, t, m).replace(' ', ""),
             None => format!("L{}-H{:?}-W{:?}", self.levels, self.heights, self.ws).replace(' ', ""),
         }
     }
@@ -308,12 +309,26 @@ pub fn c14_judge(s: &Setting, task: &Task, wh: Where, probe: &Value, default: &V
         for x in vs {
             if let Some(site) = x.as_str().and_then(|t| t.strip_prefix("panic:")) {
                 v.push(Viol::new(format!("C14:panic:verify:{}", site), format!("verification panicked at {} under build setting {} ({} with a parameter list {:?} the limits)", site, s.label(), op, wh)));
+                v.push(Viol::new(format!("C06:panic:restricted-build:{}", site), format!("verification panicked at {} in a build with limits {}", site, s.label())));
             }
         }
     }
+    let has_aux = matches!(task, Task::Keygen { aux_len: Some(_), .. } | Task::SignAt { aux_len: Some(_), .. });
     if let Some(site) = res.strip_prefix("panic:") {
         v.push(Viol::new(format!("C14:panic:{}:{}", op, site), format!("{} panicked at {} under build setting {} for a parameter list {:?} the limits", op, site, s.label(), wh)));
+        // the same observation under the build-independent properties (their checks run these probes too)
+        v.push(Viol::new(format!("C11:panic:restricted-build:{}:{}", op, site), format!("{} panicked at {} in a build with limits {} (parameter list {:?} the limits)", op, site, s.label(), wh)));
+        if has_aux {
+            v.push(Viol::new(format!("C10:panic:restricted-build:{}:{}", op, site), format!("{} with an aux buffer panicked at {} in a build with limits {}", op, site, s.label())));
+        }
+        if probe["cb"].as_u64().unwrap_or(0) > 0 {
+            v.push(Viol::new("C04:leaf-consumed-then-panic:restricted-build", format!("the callback accepted the successor key and the call then panicked at {} in a build with limits {}", site, s.label())));
+        }
         return v;
+    }
+    if res == "err" && probe["cb"].as_u64().unwrap_or(0) > 0 {
+        v.push(Viol::new("C04:callback-without-signature:restricted-build", format!("the callback was invoked although {} failed in a build with limits {}", op, s.label())));
+        v.push(Viol::new("C11:callback-on-error-path:restricted-build", format!("the callback was invoked although {} failed in a build with limits {}", op, s.label())));
     }
     if let Some(site) = probe["lifetime"].as_str().and_then(|l| l.strip_prefix("panic:")) {
         v.push(Viol::new(format!("C14:panic:lifetime:{}", site), format!("get_lifetime panicked at {} under build setting {}", site, s.label())));
@@ -345,6 +360,9 @@ pub fn c14_judge(s: &Setting, task: &Task, wh: Where, probe: &Value, default: &V
                 return v;
             }
             for field in ["sk", "pk", "sig", "succ", "lifetime", "verify", "aux", "cb"] {
+                if probe[field] != default[field] && has_aux {
+                    v.push(Viol::new(format!("C10:restricted-build:differs:{}", field), format!("{} with an aux buffer: field '{}' in a build with limits {} differs from the default build", op, field, s.label())));
+                }
                 if probe[field] != default[field] {
                     v.push(Viol::new(format!("C14:differs-from-default:{}:{}:{}", op, field, lbl), format!("{} result field '{}' under build setting {} differs from the default build: {} vs {}", op, field, s.label(), probe[field].to_string().chars().take(100).collect::<String>(), default[field].to_string().chars().take(100).collect::<String>())));
                 }
@@ -399,9 +417,54 @@ pub fn c14_settings(th: bool) -> Vec<Setting> {
     v
 }
 
+/// restricted builds WITH the fast_verify feature: sign_mut on every parameter list inside the limits
+pub fn c14_fv_settings(th: bool) -> Vec<Setting> {
+    let mut v = vec![Setting { levels: 3, heights: vec![10, 5, 5], ws: vec![2, 4, 8], fv: Some((1, 10)) }];
+    if th {
+        v.push(Setting { levels: 2, heights: vec![5, 5], ws: vec![8, 2], fv: Some((2, 7)) });
+        v.push(Setting { levels: 2, heights: vec![5, 5], ws: vec![2, 8], fv: Some((1, 10)) });
+    }
+    v
+}
+pub fn c14_fv_tasks(seed: u64, s: &Setting, th: bool) -> Vec<Task> {
+    let mut t = vec![];
+    let hashes = [Hid::S32, Hid::S16, Hid::K24];
+    let plain = Setting { fv: None, ..s.clone() };
+    for (li, l) in c14_lists(&plain, th).into_iter().enumerate() {
+        let hid = hashes[li % 3];
+        let m = Model::new(hid);
+        let hs = m.heights(&l);
+        if classify(&plain, &m, &l) != Where::Inside || hs.iter().any(|h| *h > 5) {
+            continue;
+        }
+        let n = hid.n();
+        let total = 1u64 << hs.iter().sum::<u32>();
+        let sd = hex::encode(det_bytes(seed, &format!("c14fv:{:?}", l), n));
+        let mut msg = det_bytes(seed, "c14fvmsg", 17);
+        msg.extend(std::iter::repeat(0u8).take(n));
+        for (ci, c) in [0u64, 1, total - 1].into_iter().enumerate() {
+            t.push(Task::SignMut { hid, params: l.clone(), seed: sd.clone(), counter: c, msg: hex::encode(&msg), reject: false, aux: ci == 1 });
+        }
+        t.push(Task::SignMut { hid, params: l.clone(), seed: sd.clone(), counter: 1, msg: hex::encode(&msg), reject: true, aux: false });
+    }
+    t
+}
+fn c14_fv_judge(s: &Setting, task: &Task, r: &Value) -> Vec<Viol> {
+    c15_judge(s, task, r)
+        .into_iter()
+        .filter(|v| v.key.starts_with("C15:"))
+        .map(|v| Viol::new(format!("C14:sign_mut-inside-limits:{}", v.key.trim_start_matches("C15:").split(":n=").next().unwrap_or("")), format!("under build setting {} sign_mut on a parameter list inside the limits: {}", s.label(), v.what)))
+        .collect()
+}
+
 pub fn c14_replay(case: &Value) -> Result<Vec<Viol>, String> {
     let s: Setting = serde_json::from_value(case["setting"].clone()).map_err(|e| e.to_string())?;
     let task: Task = serde_json::from_value(case["task"].clone()).map_err(|e| e.to_string())?;
+    if s.fv.is_some() {
+        let bin = build_probe(&s, "c14-fv-replay")?;
+        let (_, res) = run_probe(&bin, &[task.clone()])?;
+        return Ok(c14_fv_judge(&s, &task, &res[0]));
+    }
     let wh: Where = serde_json::from_value(case["where"].clone()).map_err(|e| e.to_string())?;
     let bin = build_probe(&s, "c14-replay")?;
     let (_, res) = run_probe(&bin, &[task.clone()])?;
@@ -469,6 +532,34 @@ pub fn run_c14(ctx: &Ctx) -> (&'static str, Map<String, Value>) {
             }
         }
     }
+    // the same limits with the fast_verify feature: sign_mut must work for every list inside the limits
+    let mut fv_tasks_total = 0u64;
+    for (k, s) in c14_fv_settings(th).into_iter().enumerate() {
+        let tasks = c14_fv_tasks(ctx.seed, &s, th);
+        let r = build_probe(&s, &format!("c14-fv-{}", k)).and_then(|bin| run_probe(&bin, &tasks));
+        match r {
+            Err(e) => {
+                eprintln!("MACHINERY: {}", e);
+                std::process::exit(2);
+            }
+            Ok((lim, res)) => {
+                if lim["fast_verify"].as_bool() != Some(true) || lim["max_levels"].as_u64() != Some(s.levels as u64) {
+                    eprintln!("MACHINERY: probe for {} reports {}", s.label(), lim);
+                    std::process::exit(2);
+                }
+                for (i, task) in tasks.iter().enumerate() {
+                    evals += 1;
+                    inside += 1;
+                    fv_tasks_total += 1;
+                    for v in c14_fv_judge(&s, task, &res[i]) {
+                        ctx.report(&v, || json!({"engine":"c14","setting":s,"task":task,"where":Where::Inside}));
+                    }
+                }
+                setting_labels.push(format!("{} ({} sign_mut tasks)", s.label(), tasks.len()));
+            }
+        }
+    }
+    ctx.count("fast_verify-restricted-build-tasks", fv_tasks_total);
     ctx.assume("'inside the limits' is read per level as documented (level i: height <= HBS_LMS_TREE_HEIGHTS[i], W >= HBS_LMS_WINTERNITZ_PARAMETERS[i]); lists inside the global extrema but outside a per-level entry may be refused or work correctly; lists outside every reading must be refused");
     ctx.assume("tree heights > 10 are never generated: parameter lists containing such a height (the per-level maximum itself, or one height above it) are exercised through the lifetime query on crafted key bytes only");
     let mut m = Map::new();
@@ -541,6 +632,18 @@ pub fn c15_judge(s: &Setting, task: &Task, r: &Value) -> Vec<Viol> {
             if let Ok((msig, _)) = m.hss_sign(&blob, &after) {
                 if msig != sig {
                     v.push(Viol::new("C07:sign_mut-not-exact", format!("the signature released by sign_mut (counter {}, {}) is not the RFC 8554 signature of the returned message with the seed-derived randomizers", counter, hid.name())));
+                }
+            }
+            // a one-time key of an upper level signs the child public key in both calls: same (I, q) must mean the
+            // same LM-OTS signature bytes (another randomizer = another digest under the same one-time key)
+            if let Some(same) = r["sign_same"].as_str().and_then(|x| hex::decode(x).ok()) {
+                if let (Ok(pa), Ok(pb)) = (m.parse_hss_sig(&sig), m.parse_hss_sig(&same)) {
+                    for lvl in 0..pa.sigs.len().saturating_sub(1).min(pb.sigs.len().saturating_sub(1)) {
+                        let (a, b) = (&pa.sigs[lvl], &pb.sigs[lvl]);
+                        if a.q == b.q && sig[a.off..a.off + a.len] != same[b.off..b.off + b.len] {
+                            v.push(Viol::new("C03:ots-reuse:sign_mut-upper-level", format!("the one-time key (level {}, leaf {}) signs the child public key with different LM-OTS signature bytes in sign_mut and in sign (counter {}, {}): two digests under one one-time key", lvl, a.q, counter, hid.name())));
+                        }
+                    }
                 }
             }
             if r["sign_same"].as_str().map(|x| x != hex::encode(&sig)).unwrap_or(false) {
@@ -872,6 +975,37 @@ pub fn run_c15(ctx: &Ctx) -> (&'static str, Map<String, Value>) {
     ("model_checking", m)
 }
 
+/// The three quick build settings of C14 under the oracles of build-independent properties (C06: the verifier
+/// is total in every build; C10: aux handling; C11: no panic, no callback on error paths): the selected
+/// tasks run in the per-setting probes and are judged by `c14_judge`, whose cross-property classes the
+/// context filters.
+pub fn restricted_cross(ctx: &Ctx, m: &mut Map<String, Value>, want: fn(&Task, Where) -> bool) {
+    let mut n = 0u64;
+    let mut labels = vec![];
+    for (k, s) in c14_settings(false).into_iter().enumerate() {
+        let tasks: Vec<(Task, Where, Vec<Param>)> = c14_tasks(ctx.seed, &s, false).into_iter().filter(|t| want(&t.0, t.1)).collect();
+        let plain: Vec<Task> = tasks.iter().map(|t| t.0.clone()).collect();
+        let r = build_probe(&s, &format!("c14-{}", k % 3)).and_then(|bin| run_probe(&bin, &plain));
+        let res = match r {
+            Ok((_, res)) => res,
+            Err(e) => {
+                eprintln!("MACHINERY: {}", e);
+                std::process::exit(2);
+            }
+        };
+        let defaults: Vec<Value> = tasks.par_iter().map(|t| if t.1 == Where::Outside { Value::Null } else { run_task(&t.0) }).collect();
+        for (i, (task, wh, _)) in tasks.iter().enumerate() {
+            n += 1;
+            for v in c14_judge(&s, task, *wh, &res[i], &defaults[i]) {
+                ctx.report(&v, || json!({"engine":"c14","setting":s,"task":task,"where":wh}));
+            }
+        }
+        labels.push(format!("{} ({} tasks)", s.label(), tasks.len()));
+    }
+    ctx.count("restricted-build-tasks", n);
+    m.insert("restricted_builds".into(), json!({"tasks": n, "settings": labels, "rule": "the selected tasks of the C14 lattice executed in probe binaries rebuilt under each quick build setting, judged by this property's oracle"}));
+}
+
 /// The sign_mut entry point (fast_verify build, one worker thread: deterministic) under the oracles of
 /// the entry-point-independent properties C01 / C04 / C05 / C07 / C09: the complete C15 task lattice is
 /// executed in the probe and judged; the context keeps the classes of its own property.
@@ -916,6 +1050,9 @@ pub fn prebuild() -> i32 {
     }
     for t in [2usize, 3] {
         jobs.push(Box::new(move || build_sched(t)));
+    }
+    for (k, s) in c14_fv_settings(false).into_iter().enumerate() {
+        jobs.push(Box::new(move || build_probe(&s, &format!("c14-fv-{}", k))));
     }
     let res: Vec<Result<String, String>> = jobs.par_iter().map(|j| j()).collect();
     let mut rc = 0;
